@@ -1,12 +1,13 @@
 import argparse
 import copy
 import logging
+import os
 import time
 from tad import StochasticGame
 
 
 def save_results_to_file(game_resuts, file_name):
-    file_name = file_name.split("/")[-1].split(".")[0]
+    file_name = os.path.splitext(os.path.basename(file_name))[0]
     with open(f"outputs/{file_name}.txt", "w") as file:
         for name, game in game_resuts.items():
             reachability_strategies = game["reachability_strategies"]
